@@ -956,6 +956,48 @@ def read_regions(repo):
     return values, consumed, unread
 
 
+# functions of the export path the hand model mirrors but the translator does not read: their
+# canonical form (locals alpha-renamed, docstrings / layout dropped) is hashed; a hash that differs
+# from the baseline's means "the body changed: search deeper" (widened correspondence), never a
+# violation by itself
+WATCHED = (('fem_attribute.py', 'FEMAttribute', 'ids2indices'),
+           ('fem_attribute.py', 'FEMAttribute', '_update_id2index'),
+           ('fem_attribute.py', 'FEMAttribute', 'values_of'),
+           ('fem_attributes.py', 'FEMAttributes', 'items'))
+
+
+def watched_hashes(repo):
+    """-> {file:Class.method: sha256 of the canonical ast | 'missing: ...'}"""
+    repo = Path(repo)
+    out, trees = {}, {}
+    for fname, cname, mname in WATCHED:
+        key = f'{fname}:{cname}.{mname}'
+        try:
+            if fname not in trees:
+                trees[fname] = ast.parse((repo / 'femio' / fname).read_text())
+            out[key] = hashlib.sha256(_canon(_method(_class(trees[fname], cname), mname)).encode()).hexdigest()
+        except (TranslateError, OSError, SyntaxError) as e:
+            out[key] = f'missing: {e}'
+    # the branch of FEMData.write that produces the file
+    try:
+        if 'fem_data.py' not in trees:
+            trees['fem_data.py'] = ast.parse((repo / 'femio' / 'fem_data.py').read_text())
+        w = _method(_class(trees['fem_data.py'], 'FEMData'), 'write')
+        br = [n for n in ast.walk(w) if isinstance(n, ast.If) and isinstance(n.test, ast.Compare)
+              and any(isinstance(c, ast.Constant) and c.value == 'vtk' for c in n.test.comparators)]
+        out['fem_data.py:FEMData.write[vtk]'] = hashlib.sha256(
+            '\n'.join(ast.dump(x) for b in br for x in b.body).encode()).hexdigest() if br else 'missing: no vtk branch'
+    except (TranslateError, OSError, SyntaxError) as e:
+        out['fem_data.py:FEMData.write[vtk]'] = f'missing: {e}'
+    return out
+
+
+def changed_bodies(repo, baseline):
+    now = watched_hashes(repo)
+    base = baseline.get('watched', {})
+    return sorted(k for k in now if now[k] != base.get(k))
+
+
 def load_baseline():
     return json.loads(BASELINE.read_text())
 
@@ -1024,6 +1066,7 @@ if __name__ == '__main__':
         flat = {}
         for r in REGIONS:
             flat.update(values[r])
+        flat['watched'] = watched_hashes(sys.argv[1])
         sys.stdout.write(json.dumps(flat, indent=1) + '\n')
     else:
         sys.stderr.write('unread: ' + json.dumps(unread, indent=1) + '\n')
